@@ -406,6 +406,7 @@ COMBINATORS = {
     "std::result::Result::map_err": ("std::result::Result", "Err", "wrap:Err", "Ok"),
     "std::option::Option::map_or": ("std::option::Option", "Some", "raw", "default"),
     "std::option::Option::map_or_else": ("std::option::Option", "Some", "raw", "default-closure"),
+    "std::option::Option::filter": ("std::option::Option", "Some", "filter", "None"),
 }
 VARIANTS = {"std::option::Option": [[0, "None"], [1, "Some"]], "std::result::Result": [[0, "Ok"], [1, "Err"]]}
 
@@ -614,7 +615,9 @@ class Desugarer:
             st.insert(0, asg(_pl(n_v), {"k": "use", "op": _mv(n_x, *_payload_proj(hit_variant, enum))}))
         bh = {"id": BH, "stmts": st, "term": {"k": "call", "callee": ccallee, "args": call_args, "dst": _pl(n_r), "target": BR, "line": line}}
         # what the two arms yield
-        if hit.startswith("wrap:"):
+        if hit == "filter":
+            rv_hit = None
+        elif hit.startswith("wrap:"):
             rv_hit = agg(hit[5:], _mv(n_r))
         elif hit == "raw" or hit == "payload":
             rv_hit = {"k": "use", "op": _mv(n_r)}
@@ -645,9 +648,22 @@ class Desugarer:
             bm_blk["stmts"] = [asg(_pl(n_env2), {"k": "use", "op": _mv(dcl_local)})]
             bm_blk["term"] = {"k": "call", "callee": {"key": default_cl["key"], "local": True, "name": "call_once", "gargs": [], "inputs": [], "output": default_cl["locals"][0]["s"]},
                               "args": [_mv(n_env2)], "dst": copy.deepcopy(dst), "target": target, "line": line}
+        if hit == "filter":
+            # the predicate takes `&v`; keep Some(v) when it holds, None otherwise
+            n_vr = len(c["locals"])
+            c["locals"].append({"s": "&?", "ref": "shared"})
+            st.append(asg(_pl(n_vr), {"k": "ref", "mut": False, "place": _pl(n_v)}))
+            bh["term"]["args"][-1] = _mv(n_vr)
+            BK, BN = B + 4, B + 5
+            after = {"id": BR, "stmts": [], "term": {"k": "switch", "discr": _mv(n_r), "discr_ty": "bool", "targets": [[0, BN, None]], "otherwise": BK, "line": line}}
+            keep = {"id": BK, "stmts": [asg(copy.deepcopy(dst), agg("Some", _mv(n_v)))], "term": {"k": "goto", "target": target, "line": line}}
+            drop_ = {"id": BN, "stmts": [asg(copy.deepcopy(dst), agg("None", None))], "term": {"k": "goto", "target": target, "line": line}}
+            c["blocks"].extend([keep, drop_])
+        else:
+            after = {"id": BR, "stmts": [asg(copy.deepcopy(dst), rv_after)], "term": {"k": "goto", "target": target, "line": line}}
         blocks = [bh,
                   bm_blk,
-                  {"id": BR, "stmts": [asg(copy.deepcopy(dst), rv_after)], "term": {"k": "goto", "target": target, "line": line}},
+                  after,
                   {"id": BU, "stmts": [], "term": {"k": "unreachable", "line": line}}]
         c["blocks"].extend(blocks)
         self.inl.splice(c, bh, cl)
@@ -731,13 +747,34 @@ def _branch_arms(by_id, m):
     return a["place"]["l"], arms
 
 
+def _discr_switch(b):
+    """block `d = discriminant(x); switch d` on a whole local x (nothing else in the block): (x, {variant name: target})"""
+    t = b["term"]
+    if t["k"] != "switch" or "discr_of" not in t or t["discr_of"]["p"]:
+        return None
+    nd = 0
+    for st in b["stmts"]:
+        if st["k"] != "assign" or st["dst"]["p"]:
+            return None
+        rv = st["rv"]
+        if rv["k"] == "discriminant" and not rv["place"]["p"] and rv["place"]["l"] == t["discr_of"]["l"]:
+            nd += 1
+        elif rv["k"] == "use" and rv["op"].get("k") == "const":
+            continue        # drop flags
+        else:
+            return None
+    if nd != 1:
+        return None
+    return t["discr_of"]["l"], {n: bb for v, bb, n in t["targets"]}
+
+
 def thread_function(c, max_region=40):
     by_id = {b["id"]: b for b in c["blocks"]}
     n = 0
     # split blocks after a statement that builds Result::Ok / Result::Err so that the definition ends its block
     for b in list(c["blocks"]):
         for i, st in enumerate(b["stmts"]):
-            if i < len(b["stmts"]) - 1 and st["k"] == "assign" and not st["dst"]["p"] and st["rv"]["k"] == "aggregate" and st["rv"].get("adt") == "std::result::Result":
+            if i < len(b["stmts"]) - 1 and st["k"] == "assign" and not st["dst"]["p"] and st["rv"]["k"] == "aggregate" and st["rv"].get("adt") in ("std::result::Result", "std::option::Option"):
                 nid = max(by_id) + 1
                 nb = {"id": nid, "stmts": b["stmts"][i + 1:], "term": b["term"]}
                 b["stmts"] = b["stmts"][:i + 1]
@@ -749,12 +786,14 @@ def thread_function(c, max_region=40):
     for b in c["blocks"]:
         t = b["term"]
         if t["k"] == "call" and not t["dst"]["p"] and t["callee"].get("key") == FROM_RES and t["target"] is not None:
-            sites.append((b, "Break", t["dst"]["l"]))
+            sites.append((b, "Break", t["dst"]["l"], "Err"))
         elif t["k"] == "goto" and b["stmts"]:
             st = b["stmts"][-1]
             if st["k"] == "assign" and not st["dst"]["p"] and st["rv"]["k"] == "aggregate" and st["rv"].get("adt") == "std::result::Result":
-                sites.append((b, "Break" if st["rv"]["variant"] == "Err" else "Continue", st["dst"]["l"]))
-    for b, arm, l0 in sites:
+                sites.append((b, "Break" if st["rv"]["variant"] == "Err" else "Continue", st["dst"]["l"], st["rv"]["variant"]))
+            elif st["k"] == "assign" and not st["dst"]["p"] and st["rv"]["k"] == "aggregate" and st["rv"].get("adt") == "std::option::Option":
+                sites.append((b, None, st["dst"]["l"], st["rv"]["variant"]))
+    for b, arm, l0, vname in sites:
         start = b["term"]["target"]
         region, ms = [], []
         seen = set()
@@ -774,6 +813,9 @@ def thread_function(c, max_region=40):
             if _branch_arms(by_id, xb) is not None and not xb["stmts"]:
                 ms.append(xb)
                 continue
+            if _discr_switch(xb) is not None:
+                ms.append(xb)
+                continue
             if xb["term"]["k"] in ("call", "return", "tailcall", "other"):
                 ok = False
                 break
@@ -782,6 +824,9 @@ def thread_function(c, max_region=40):
                 ok = False
                 break
             stack.extend(_succs(xb))
+        if arm is None:
+            # an Option has no `branch`: only direct matches on it are threaded
+            ms = [m for m in ms if _branch_arms(by_id, m) is None]
         if not ok or not ms:
             continue
         # locals that hold the value on the way
@@ -802,7 +847,10 @@ def thread_function(c, max_region=40):
                 if st["dst"]["l"] in tracked and not (st["k"] == "assign" and st["rv"]["k"] == "use" and st["rv"]["op"].get("k") in ("copy", "move") and
                                                       not st["rv"]["op"]["place"]["p"] and st["rv"]["op"]["place"]["l"] in tracked):
                     bad = True
-        if bad or any(_branch_arms(by_id, m)[0] not in tracked for m in ms):
+        def m_local(m):
+            ba = _branch_arms(by_id, m)
+            return ba[0] if ba is not None else _discr_switch(m)[0]
+        if bad or any(m_local(m) not in tracked for m in ms):
             continue
         base = max(by_id) + 1
         idmap = {xb["id"]: base + k for k, xb in enumerate(region + ms)}
@@ -814,7 +862,14 @@ def thread_function(c, max_region=40):
             q["id"] = idmap[xb["id"]]
             t2 = q["term"]
             k2 = t2["k"]
-            if xb in ms:
+            if xb in ms and _branch_arms(by_id, xb) is None:
+                # a `match` on the value itself: continue in the arm of the visible constructor
+                arms2 = _discr_switch(xb)[1]
+                tgt = arms2.get(vname)
+                if tgt is None:
+                    tgt = t2["otherwise"]
+                q["term"] = {"k": "goto", "target": tgt, "line": t2.get("line", 0), "threaded": vname}
+            elif xb in ms:
                 t2["target"] = _branch_arms(by_id, xb)[1][arm]
                 t2["threaded"] = arm
             elif k2 in ("goto", "drop", "assert"):
